@@ -4,7 +4,10 @@
 EXTENDS TshAst
 CONSTANT Tier
 Quick == Tier = "quick"
-Progs == <<"plain", "dirA", "dirB", "stdmany">>        \* see harness/purity.go for the source trees
+\* see harness/purity.go for the source trees: shA..shBad are main files in ONE directory sharing lib.tsh -> util.tsh (globals, top-level code) by path,
+\* mut1/mut2 are one and the same path whose imported file is rewritten (two versions) before the call
+Progs == <<"plain", "dirA", "dirB", "stdmany", "shA", "shB", "shC", "shD", "shBad", "mut1", "mut2">>
+Core == {"plain", "dirA", "dirB", "stdmany"}
 Targets == <<"bash", "batch">>
 Modes == IF Quick THEN <<"same", "newobj", "newproc">> ELSE <<"same", "newobj", "newproc", "relocated", "relocatedproc">>
 Op == [prog : {Progs[i] : i \in 1..Len(Progs)}, target : {"bash", "batch"}, mode : {Modes[i] : i \in 1..Len(Modes)}]
@@ -12,7 +15,8 @@ OpName(o) == o.prog \o "." \o o.target \o "." \o o.mode
 H1 == {<<a>> : a \in Op}
 H2 == {<<a, b>> : a \in Op, b \in Op}
 \* length 3: the first two calls in the same process on different programs, then any third call
-H3 == {<<a, b, c>> : a \in {o \in Op : o.mode = "same"}, b \in {o \in Op : o.mode \in {"same", "newobj"}}, c \in (IF Quick THEN {o \in Op : o.mode = "same"} ELSE Op)}
+Op3 == IF Quick THEN {o \in Op : o.prog \in Core \/ o.target = "bash"} ELSE Op
+H3 == {<<a, b, c>> : a \in {o \in Op3 : o.mode = "same"}, b \in {o \in Op3 : o.mode \in {"same", "newobj"}}, c \in (IF Quick THEN {o \in Op3 : o.mode = "same"} ELSE {o \in Op : o.prog \in Core \/ o.target = "bash"})}
 Name(h) == JoinS([i \in 1..Len(h) |-> OpName(h[i])], "-")
 Hist == {[id |-> "C14/h/" \o Name(h), ops |-> h] : h \in H1 \cup H2 \cup H3}
 ASSUME ndJsonSerialize("fam.ndjson", SetToSeq(Hist))
